@@ -471,14 +471,10 @@ theorem same_gateFire (s : State) (ch : Option Int) (ok : Bool) : Same (gateFire
   · exact (same_openCore _ ch ok).trans hg
 
 theorem same_retryOpen (s : State) (ch : Option Int) (ok : Bool) : Same (retryOpen s ch ok).1 s := by
-  unfold retryOpen
-  split
-  · exact ⟨rfl, rfl, rfl⟩
-  · split
-    · exact ⟨rfl, rfl, rfl⟩
-    · split
-      · exact ⟨rfl, rfl, rfl⟩
-      · exact same_openCore s ch ok
+  rcases retryOpen_cases s ch ok with h | h | ⟨_, _, _, _, _, h⟩
+  · rw [h]; exact ⟨rfl, rfl, rfl⟩
+  · rw [h]; exact ⟨rfl, rfl, rfl⟩
+  · rw [h]; exact same_openCore s ch ok
 
 theorem same_foldl_join (ps : List Player) (s : State) :
     Same (ps.foldl (fun acc p => (join acc p.id).1) s) s := by
